@@ -20,7 +20,7 @@ void cat_verif_phase(struct cat_object *self, int code) { (void)self; if (code <
 
 #define MAXP 8
 static struct cat_object at;
-static pthread_mutex_t mtx = PTHREAD_MUTEX_INITIALIZER;
+static pthread_mutex_t mtx;      /* error-checking: an unlock by a thread that does not own it is reported instead of silently breaking mutual exclusion */
 static pthread_t last_owner; static bool have_owner; static long handovers, lock_calls;      /* protected by mtx */
 static atomic_long contended;
 static int lock_may_fail;      /* --timedlock: lock() gives up under contention and reports failure, as an RTOS "take with timeout" would */
@@ -40,7 +40,8 @@ static int mx_lock(void)
         last_owner = me; have_owner = true; lock_calls++;
         return 0;
 }
-static int mx_unlock(void) { return pthread_mutex_unlock(&mtx) == 0 ? 0 : 1; }
+static atomic_long unlock_errors;
+static int mx_unlock(void) { if (pthread_mutex_unlock(&mtx) != 0) { atomic_fetch_add(&unlock_errors, 1); return 1; } return 0; }
 static struct cat_mutex_interface mutex = { .lock = mx_lock, .unlock = mx_unlock };
 
 static atomic_long accepted[MAXP], refused[MAXP], delivered[MAXP];
@@ -54,7 +55,7 @@ static int io_write(char c) { (void)c; if (srnd() % 100 >= p_write) { write_refu
 static int io_read(char *c) { if (inpos >= inlen || srnd() % 100 < 20) return 0; *c = (char)input[inpos++]; return 1; }
 static struct cat_io_interface io = { .write = io_write, .read = io_read };
 
-static struct cat_command cmds[MAXP + 2]; static char names[MAXP + 2][8]; static uint8_t vdata[MAXP + 2]; static struct cat_variable vars[MAXP + 2];
+static struct cat_command cmds[MAXP + 3]; static char names[MAXP + 3][8]; static uint8_t vdata[MAXP + 3]; static struct cat_variable vars[MAXP + 3];
 static cat_return_state ev_handler(const struct cat_command *cmd, uint8_t *d, size_t *n, size_t m)
 {
         (void)d; (void)n; (void)m;
@@ -71,6 +72,17 @@ static cat_return_state ev_handler(const struct cat_command *cmd, uint8_t *d, si
         }
         return (srnd() & 1) ? CAT_RETURN_STATE_DATA_OK : CAT_RETURN_STATE_OK;
 }
+/* variable read callback of the event commands: fails now and then; a READ event whose variable cannot be read ends there (it counts as delivered: it was consumed, once) */
+static long var_read_failures;
+static int var_read(const struct cat_variable *v)
+{
+        int p = (int)(v - vars);
+        if (srnd() % 8 != 0) return 0;
+        var_read_failures++;
+        if (phase == 1 && p < MAXP) atomic_fetch_add(&delivered[p], 1);
+        return 1;
+}
+static cat_return_state help_run(const struct cat_command *cmd) { (void)cmd; return CAT_RETURN_STATE_PRINT_CMD_LIST_OK; }
 static cat_return_state hold_run(const struct cat_command *cmd) { (void)cmd; if (srnd() % 3 == 0) { holds_entered++; return CAT_RETURN_STATE_HOLD; } return CAT_RETURN_STATE_OK; }
 static cat_return_state wr_handler(const struct cat_command *cmd, const uint8_t *d, size_t n, size_t a) { (void)cmd; (void)d; (void)n; (void)a; return CAT_RETURN_STATE_OK; }
 
@@ -100,6 +112,23 @@ static void *producer(void *vp)
         return NULL;
 }
 
+/* a bystander that takes the parser mutex like any API function would and looks at the parser object twice: nobody may change it meanwhile */
+static atomic_long frozen_checks, frozen_violations;
+static void *bystander(void *vp)
+{
+        (void)vp; struct cat_object snap;
+        while (atomic_load(&producers_running) > 0) {
+                if (mx_lock() == 0) {
+                        memcpy(&snap, &at, sizeof snap);
+                        for (int i = 0; i < 3; i++) sched_yield();
+                        if (memcmp(&snap, &at, sizeof snap) != 0) atomic_fetch_add(&frozen_violations, 1);
+                        atomic_fetch_add(&frozen_checks, 1);
+                        mx_unlock();
+                }
+                struct timespec ts = { 0, 30000 }; nanosleep(&ts, NULL);
+        }
+        return NULL;
+}
 int main(int argc, char **argv)
 {
         uint64_t seed = 1; int P = 4; long T = 2000;
@@ -109,19 +138,22 @@ int main(int argc, char **argv)
         for (int p = 0; p < MAXP; p++) {
                 snprintf(names[p], sizeof names[p], "+P%d", p);
                 cmds[p].name = names[p]; cmds[p].read = ev_handler; cmds[p].test = ev_handler;
-                vars[p].type = CAT_VAR_UINT_DEC; vars[p].data = &vdata[p]; vars[p].data_size = 1; cmds[p].var = &vars[p]; cmds[p].var_num = 1;
+                vars[p].type = CAT_VAR_UINT_DEC; vars[p].data = &vdata[p]; vars[p].data_size = 1; vars[p].read = var_read; cmds[p].var = &vars[p]; cmds[p].var_num = 1;
         }
         cmds[MAXP].name = "+HOLD"; cmds[MAXP].run = hold_run;
         cmds[MAXP + 1].name = "+W"; cmds[MAXP + 1].write = wr_handler;
-        static struct cat_command_group g = { .cmd = cmds, .cmd_num = MAXP + 2 }; static struct cat_command_group *gp[] = { &g };
+        cmds[MAXP + 2].name = "+HELP"; cmds[MAXP + 2].run = help_run;      /* the command list walks the whole table, one step per service call */
+        static struct cat_command_group g = { .cmd = cmds, .cmd_num = MAXP + 3 }; static struct cat_command_group *gp[] = { &g };
         static uint8_t buf[128]; static struct cat_descriptor desc = { .cmd_group = gp, .cmd_group_num = 1, .buf = buf, .buf_size = sizeof buf };
         /* command traffic for the service thread */
-        static const char *lines[] = { "AT+HOLD\n", "AT+W=abc\r\n", "AT+P0?\n", "AT+P1=?\n", "AT\n", "AT+NOPE\n", "AT+P2=5\n", "AT+HOLD\n" };
+        static const char *lines[] = { "AT+HOLD\n", "AT+W=abc\r\n", "AT+P0?\n", "AT+P1=?\n", "AT\n", "AT+NOPE\n", "AT+P2=5\n", "AT+HELP\n" };
         long nl = 40 + (long)(srnd() % 200);
         for (long l = 0; l < nl; l++) { const char *s = lines[srnd() % 8]; size_t n = strlen(s); if (inlen + n < sizeof input) { memcpy(input + inlen, s, n); inlen += n; } }
+        { pthread_mutexattr_t ma; pthread_mutexattr_init(&ma); pthread_mutexattr_settype(&ma, PTHREAD_MUTEX_ERRORCHECK); pthread_mutex_init(&mtx, &ma); }
         cat_init(&at, &desc, &io, &mutex);
-        pthread_t th[MAXP]; struct parg pa[MAXP];
+        pthread_t th[MAXP], by; struct parg pa[MAXP];
         atomic_store(&producers_running, P);
+        pthread_create(&by, NULL, bystander, NULL);
         for (int p = 0; p < P; p++) { pa[p].id = p; pa[p].seed = seed * 1000003ULL + (uint64_t)p * 7919ULL + 1; pa[p].triggers = T; pthread_create(&th[p], NULL, producer, &pa[p]); }
         long services = 0, quiet = 0; struct timespec t0; clock_gettime(CLOCK_MONOTONIC, &t0);
         for (;;) {
@@ -137,14 +169,15 @@ int main(int argc, char **argv)
                 if ((services & 0xfffff) == 0) { struct timespec t1; clock_gettime(CLOCK_MONOTONIC, &t1); if (t1.tv_sec - t0.tv_sec > 240) { fprintf(stderr, "WATCHDOG\n"); return 3; } }
         }
         for (int p = 0; p < P; p++) pthread_join(th[p], NULL);
+        pthread_join(by, NULL);
         long acc = 0, ref = 0, del = 0; int bad = 0;
         for (int p = 0; p < P; p++) { long a = atomic_load(&accepted[p]), d = atomic_load(&delivered[p]); acc += a; del += d; ref += atomic_load(&refused[p]); if (a != d) bad++; }
         printf("{\"producers\":%d,\"cap\":%d,\"seed\":%llu,\"triggers_per_producer\":%ld,\"accepted\":%ld,\"refused_full\":%ld,\"delivered\":%ld,\"producers_with_mismatch\":%d,"
                "\"lock_calls\":%ld,\"handovers\":%ld,\"contended_locks\":%ld,\"service_calls\":%ld,\"holds_entered\":%ld,\"hold_exits_ok\":%ld,\"hold_exits_not_hold\":%ld,\"queries\":%ld,"
-               "\"write_refusals\":%ld,\"lockfree_queries_in_handlers\":%ld,\"bad_lockfree\":%ld,\"lock_failures\":%ld,\"odd_status\":%ld,\"per_producer\":[",
+               "\"write_refusals\":%ld,\"lockfree_queries_in_handlers\":%ld,\"bad_lockfree\":%ld,\"lock_failures\":%ld,\"odd_status\":%ld,\"unlock_errors\":%ld,\"frozen_checks\":%ld,\"frozen_violations\":%ld,\"var_read_failures\":%ld,\"per_producer\":[",
                P, (int)CAT_UNSOLICITED_CMD_BUFFER_SIZE, (unsigned long long)seed, T, acc, ref, del, bad, lock_calls, handovers, atomic_load(&contended), services, holds_entered,
-               atomic_load(&hold_exits_ok), atomic_load(&hold_exits_nothold), atomic_load(&queries), write_refusals, lockfree_queries_in_handlers, bad_lockfree, atomic_load(&lock_failures), atomic_load(&odd_status));
+               atomic_load(&hold_exits_ok), atomic_load(&hold_exits_nothold), atomic_load(&queries), write_refusals, lockfree_queries_in_handlers, bad_lockfree, atomic_load(&lock_failures), atomic_load(&odd_status), atomic_load(&unlock_errors), atomic_load(&frozen_checks), atomic_load(&frozen_violations), var_read_failures);
         for (int p = 0; p < P; p++) printf("%s[%ld,%ld,%ld]", p ? "," : "", atomic_load(&accepted[p]), atomic_load(&refused[p]), atomic_load(&delivered[p]));
         printf("]}\n");
-        return (bad || atomic_load(&odd_status)) ? 1 : 0;
+        return (bad || atomic_load(&odd_status) || atomic_load(&unlock_errors) || atomic_load(&frozen_violations)) ? 1 : 0;
 }
